@@ -274,7 +274,7 @@ class InvalidCase(RuntimeError):
     """The case is not a well-formed program (only shrinking can produce one)."""
 
 
-def run_impl(steps: list[dict], injected: dict | None = None) -> list:
+def run_impl(steps: list[dict], injected: dict | None = None, observer=None) -> list:
     """Execute a protocol program on the real library; one canonical value per step.
 
     `injected` maps step indices to converters (or exceptions) a property's harness produced itself
@@ -388,6 +388,8 @@ def run_impl(steps: list[dict], injected: dict | None = None) -> list:
                 out.append(enc_val(list(curies.upgrade_prefix_map({uncps(k): uncps(v) for k, v in st["data"]}))))
             else:
                 raise InvalidCase(f"unknown op {op}")
+            if observer is not None:
+                observer(slots)
         except InvalidCase:
             raise
         except Exception as e:  # noqa: BLE001 - exceptions are observations
